@@ -129,7 +129,6 @@ impl VMMap for Map64 {
         let index = descriptor.get_index();
         let rtn = self.inner().high_water[index];
         let extent = chunks << LOG_BYTES_IN_CHUNK;
-        self_mut.high_water[index] = rtn + extent;
 
         if let Some(freelist) = maybe_freelist {
             let Some(rmfl) = freelist.downcast_mut::<RawMemoryFreeList>() else {
@@ -139,13 +138,21 @@ impl VMMap for Map64 {
                 // accommodate the new chunks.  Currently only `RawMemoryFreeList` can grow.
                 panic!("Map64 requires a growable free list implementation (RawMemoryFreeList).");
             };
-            rmfl.grow_freelist(conversions::bytes_to_pages_up(extent) as _);
+            // The free list was sized for the extent of the space.  If it cannot grow any more, the
+            // space has run out of address range: fail the request (like `Map32` does when it runs
+            // out of chunks) rather than handing out chunks the free list cannot describe.
+            if !rmfl.grow_freelist(conversions::bytes_to_pages_up(extent) as _) {
+                return Address::ZERO;
+            }
+            self_mut.high_water[index] = rtn + extent;
             let base_page = conversions::bytes_to_pages_up(rtn - self.inner().base_address[index]);
             for offset in (0..(chunks * PAGES_IN_CHUNK)).step_by(PAGES_IN_CHUNK) {
                 rmfl.set_uncoalescable((base_page + offset) as _);
                 /* The 32-bit implementation requires that pages are returned allocated to the caller */
                 rmfl.alloc_from_unit(PAGES_IN_CHUNK as _, (base_page + offset) as _);
             }
+        } else {
+            self_mut.high_water[index] = rtn + extent;
         }
         rtn
     }
